@@ -7,6 +7,7 @@ import (
 	"reflect"
 
 	dproto "github.com/cloudwego/dynamicgo/proto"
+	"google.golang.org/protobuf/encoding/protowire"
 	"google.golang.org/protobuf/proto"
 	"google.golang.org/protobuf/reflect/protoreflect"
 	"google.golang.org/protobuf/types/dynamicpb"
@@ -450,4 +451,67 @@ func PUnmarshal(b []byte, m proto.Message) (err error) {
 		}
 	}()
 	return proto.Unmarshal(b, m)
+}
+
+// pShuffleWire permutes the field groups of a reference encoding (and, recursively, of its nested messages):
+// protobuf-go's default (non-deterministic) marshalling of a dynamicpb message writes the populated fields in
+// map-iteration order, so every such permutation is an encoding the reference implementation produces.  The
+// records of one field number stay contiguous and in order (repeated elements, map entries), lengths do not
+// change.  Returns the input when it cannot be walked.
+func pShuffleWire(r *h.Rand, b []byte, md protoreflect.MessageDescriptor, depth int) []byte {
+	return pShuffleWire1(r, b, md, depth, true)
+}
+
+func pShuffleWire1(r *h.Rand, b []byte, md protoreflect.MessageDescriptor, depth int, permute bool) []byte {
+	type grp struct {
+		num  protowire.Number
+		data []byte
+	}
+	var groups []grp
+	for off := 0; off < len(b); {
+		num, wt, n := protowire.ConsumeTag(b[off:])
+		if n < 0 {
+			return b
+		}
+		m := protowire.ConsumeFieldValue(num, wt, b[off+n:])
+		if m < 0 {
+			return b
+		}
+		rec := b[off : off+n+m]
+		if fd := md.Fields().ByNumber(num); fd != nil && wt == protowire.BytesType && depth < 6 &&
+			(fd.Kind() == protoreflect.MessageKind || fd.IsMap()) {
+			payload, pn := protowire.ConsumeBytes(b[off+n:])
+			if pn >= 0 {
+				sub := fd.Message() // the entry message for maps
+				// map entries are always written key first: only their message values are permuted inside
+				sh := pShuffleWire1(r, payload, sub, depth+1, !fd.IsMap())
+				nr := append([]byte{}, b[off:off+n]...)
+				nr = protowire.AppendBytes(nr, sh)
+				if len(nr) == len(rec) {
+					rec = nr
+				}
+			}
+		}
+		if len(groups) > 0 && groups[len(groups)-1].num == num {
+			groups[len(groups)-1].data = append(groups[len(groups)-1].data, rec...)
+		} else {
+			// a number seen before in a non-adjacent place: keep everything as is
+			for _, g := range groups {
+				if g.num == num {
+					return b
+				}
+			}
+			groups = append(groups, grp{num, append([]byte{}, rec...)})
+		}
+		off += n + m
+	}
+	for i := len(groups) - 1; i > 0 && permute; i-- {
+		j := r.Intn(i + 1)
+		groups[i], groups[j] = groups[j], groups[i]
+	}
+	out := make([]byte, 0, len(b))
+	for _, g := range groups {
+		out = append(out, g.data...)
+	}
+	return out
 }
